@@ -500,7 +500,23 @@ Lemma dedup_refuted_witness :
 Proof. vm_compute. split; reflexivity. Qed.
 
 
-(* ---------- lowering + scan = the AST decision, when no condition is empty ---------- *)
+(* ---------- lowering + scan ----------
+   auxiliary: the match sets RulesBuilder.Apply emits when it does not fail *)
+Fixpoint lower_funcs_ms (fs : list func) (out : func) : list matchset :=
+  match fs with
+  | [] => []
+  | f :: t => (lower_groups f (match t with [] => true | _ => false end) out (group_params (f_params f))
+               ++ lower_funcs_ms t out)%list
+  end.
+Definition lower_ms (rules : list rule) : list matchset :=
+  flat_map (fun r => lower_funcs_ms (r_funcs r) (r_out r)) rules.
+
+Definition some_condition_empty (rules : list rule) : Prop :=
+  exists r f, In r rules /\ In f (r_funcs r) /\ f_params f = [].
+(* a guarantee of the grammar (a rule is `conditions -> outbound`), kept by every optimizer *)
+Definition rules_have_conditions (rules : list rule) : Prop :=
+  forall r, In r rules -> r_funcs r <> [].
+
 Definition nonempty_conditions (rules : list rule) : Prop :=
   forall r, In r rules -> r_funcs r <> [] /\ forall f, In f (r_funcs r) -> f_params f <> [].
 
@@ -588,18 +604,18 @@ Section LowerProofs.
 
   (* the match sets of one rule *)
   Lemma scan_funcs : forall out fs rest pk bad must, fs <> [] -> (forall f, In f fs -> f_params f <> []) ->
-      scan (lower_funcs fs out ++ rest) pk false bad must =
+      scan (lower_funcs_ms fs out ++ rest) pk false bad must =
       if negb (bad || negb (forallb (func_holds pk) fs))
       then match out_sem out with Some d => Some (Some d, must) | None => scan rest pk false false true end
       else scan rest pk false false must.
   Proof.
     induction fs as [|f t IH]; intros rest pk bad must NE HP; [congruence|].
-    cbn [lower_funcs]. rewrite <- app_assoc.
+    cbn [lower_funcs_ms]. rewrite <- app_assoc.
     rewrite scan_groups by (apply group_params_nonempty, HP; cbn; auto).
     cbv zeta. rewrite group_params_eval. cbn [orb forallb].
     unfold C04_Spec.func_holds at 1. rewrite eqb_xorb.
     destruct t as [|f' t'].
-    - cbn [lower_funcs app forallb]. rewrite andb_true_r. reflexivity.
+    - cbn [lower_funcs_ms app forallb]. rewrite andb_true_r. reflexivity.
     - rewrite IH by (try discriminate; intros; apply HP; cbn; auto).
       set (a := xorb (f_not f) (existsb (param_holds (f_name f) pk) (f_params f))).
       set (b := forallb (func_holds pk) (f' :: t')).
@@ -607,10 +623,10 @@ Section LowerProofs.
   Qed.
 
   Lemma lower_sound : forall rules, nonempty_conditions rules ->
-      forall pk must, scan (lower rules) pk false false must = Some (decide_ast rules pk must).
+      forall pk must, scan (lower_ms rules) pk false false must = Some (decide_ast rules pk must).
   Proof.
     induction rules as [|r t IH]; intros HN pk must; [reflexivity|].
-    unfold lower; cbn [flat_map]. fold (lower t).
+    unfold lower_ms; cbn [flat_map]. fold (lower_ms t).
     destruct (HN r (or_introl eq_refl)) as [NE HP].
     rewrite scan_funcs by assumption. cbn [orb C04_Spec.decide_ast].
     unfold C04_Spec.rule_matches.
@@ -619,20 +635,70 @@ Section LowerProofs.
     - destruct (out_sem (r_out r)); [reflexivity|apply IH, HT].
     - apply IH, HT.
   Qed.
+
+  (* the code-shaped lowering: fails exactly on an empty condition, otherwise yields those match sets *)
+  Lemma group_params_nil : forall ps, group_params ps = [] -> ps = [].
+  Proof. intros [|p t] H; [reflexivity|]. exfalso. revert H. apply group_params_nonempty. discriminate. Qed.
+
+  Lemma lower_funcs_some : forall out fs l, lower_funcs fs out = Some l ->
+      l = lower_funcs_ms fs out /\ forall f, In f fs -> f_params f <> [].
+  Proof.
+    induction fs as [|f t IH]; intros l H; cbn in H.
+    - inversion H. split; [reflexivity|]. intros f [].
+    - destruct (group_params (f_params f)) as [|g gs] eqn:E; [discriminate|].
+      destruct (lower_funcs t out) as [l'|]; [|discriminate]. inversion H; subst.
+      destruct (IH l' eq_refl) as [-> HP]. split.
+      + cbn [lower_funcs_ms]. rewrite E. reflexivity.
+      + intros f' [<-|Hin]; [|now apply HP]. intros N. rewrite N in E. discriminate.
+  Qed.
+
+  Lemma lower_funcs_none : forall out fs, lower_funcs fs out = None -> exists f, In f fs /\ f_params f = [].
+  Proof.
+    induction fs as [|f t IH]; intros H; cbn in H; [discriminate|].
+    destruct (group_params (f_params f)) as [|g gs] eqn:E.
+    - exists f. split; [cbn; auto|]. now apply group_params_nil.
+    - destruct (lower_funcs t out) as [l'|]; [discriminate|].
+      destruct (IH eq_refl) as (f' & Hin & N). exists f'. split; [cbn; auto|exact N].
+  Qed.
+
+  Lemma lower_some : forall rules ms, lower rules = Some ms ->
+      ms = lower_ms rules /\ forall r f, In r rules -> In f (r_funcs r) -> f_params f <> [].
+  Proof.
+    induction rules as [|r t IH]; intros ms H; cbn in H.
+    - inversion H. split; [reflexivity|]. intros r f [].
+    - destruct (lower_funcs (r_funcs r) (r_out r)) as [a|] eqn:E; [|discriminate].
+      destruct (lower t) as [b|]; [|discriminate]. inversion H; subst.
+      destruct (lower_funcs_some _ _ _ E) as [-> HP]. destruct (IH b eq_refl) as [-> HT].
+      split; [reflexivity|]. intros r' f [<-|Hin]; [apply HP|now apply HT].
+  Qed.
+
+  Lemma lower_none_iff : forall rules, lower rules = None <-> some_condition_empty rules.
+  Proof.
+    intros rules. split.
+    - induction rules as [|r t IH]; intros H; cbn in H; [discriminate|].
+      destruct (lower_funcs (r_funcs r) (r_out r)) as [a|] eqn:E.
+      + destruct (lower t) as [b|]; [discriminate|]. destruct (IH eq_refl) as (r' & f & Hr & Hf & N).
+        exists r', f. repeat split; cbn; auto.
+      + destruct (lower_funcs_none _ _ E) as (f & Hf & N). exists r, f. repeat split; cbn; auto.
+    - intros (r & f & Hr & Hf & N). destruct (lower rules) as [ms|] eqn:E; [|reflexivity].
+      exfalso. destruct (lower_some _ _ E) as [_ HP]. now apply (HP r f).
+  Qed.
+
+  Lemma compiled_error : forall rules, some_condition_empty rules ->
+      forall pk, compiled_decision packet D atom_sem out_sem rules pk = CBuildError.
+  Proof. intros rules H pk. unfold compiled_decision. apply lower_none_iff in H. now rewrite H. Qed.
+
+  Lemma compiled_sound : forall rules ms, rules_have_conditions rules -> lower rules = Some ms ->
+      forall pk, compiled_decision packet D atom_sem out_sem rules pk
+                 = CDecision (C04_Spec.decide packet D atom_sem out_sem rules pk).
+  Proof.
+    intros rules ms HC H pk. unfold compiled_decision, C04_Spec.decide. rewrite H.
+    destruct (lower_some _ _ H) as [-> HP].
+    rewrite lower_sound; [reflexivity|]. intros r Hr. split; [now apply HC|]. intros f Hf. now apply (HP r f).
+  Qed.
 End LowerProofs.
 
-(* a condition without values is dropped by the lowering: `domain() && port(80) -> block` blocks all of port 80 *)
-Definition w_empty_rules : list rule :=
-  [ {| r_funcs := [ {| f_name := "domain"; f_not := false; f_params := [] |};
-                    {| f_name := "port"; f_not := false; f_params := [{| p_key := ""; p_val := "80" |}] |} ];
-       r_out := {| f_name := "block"; f_not := false; f_params := [] |} |} ].
-
-Lemma lower_refuted_witness :
-  compiled_decision string string w_atom w_out w_empty_rules "80" = Some (Some "block", false) /\
-  decide string string w_atom w_out w_empty_rules "80" = (None, false).
-Proof. vm_compute. split; reflexivity. Qed.
-
-(* ... and such a list is what DatReaderOptimizer produces from a reference whose expansion is empty *)
+(* a geodata reference whose expansion is empty: DatReaderOptimizer leaves `domain()`, and the build fails *)
 Definition db_empty : geodb :=
   {| db_sites := [("geosite.dat", [{| gs_code := "cn"; gs_domains := [{| d_type := 3%N; d_value := "a.com"; d_attrs := ["ads"] |}] |}])];
      db_ips := [] |}.
@@ -640,14 +706,78 @@ Definition w_geo_rules : list rule :=
   [ {| r_funcs := [ {| f_name := "domain"; f_not := false; f_params := [{| p_key := "geosite"; p_val := "cn@nope" |}] |};
                     {| f_name := "port"; f_not := false; f_params := [{| p_key := ""; p_val := "80" |}] |} ];
        r_out := {| f_name := "block"; f_not := false; f_params := [] |} |} ].
-(* a value under port() holds iff it equals the packet (a port); geosite references hold for nothing here *)
-Definition w_atom_port (f k v : string) (pk : string) : bool := (f =? "port") && (v =? pk).
 
-Lemma compiled_refuted_witness :
-  exists out, traffic_pipeline db_empty w_geo_rules = XOk out /\
-              compiled_decision string string w_atom_port w_out out "80" = Some (Some "block", false) /\
-              decide string string w_atom_port w_out w_geo_rules "80" = (None, false).
-Proof. eexists. split; [vm_compute; reflexivity|]. vm_compute. split; reflexivity. Qed.
+Lemma empty_expansion_witness :
+  exists out, traffic_pipeline db_empty w_geo_rules = XOk out /\ some_condition_empty out /\
+              forall pk : string, compiled_decision string string w_atom w_out out pk = CBuildError.
+Proof.
+  eexists. split; [vm_compute; reflexivity|].
+  assert (H : some_condition_empty
+                [ {| r_funcs := [ {| f_name := "domain"; f_not := false; f_params := [] |};
+                                  {| f_name := "port"; f_not := false; f_params := [{| p_key := ""; p_val := "80" |}] |} ];
+                     r_out := {| f_name := "block"; f_not := false; f_params := [] |} |} ]).
+  { eexists; eexists. split; [left; reflexivity|]. split; [left; reflexivity|reflexivity]. }
+  split; [exact H|]. intros pk. now apply compiled_error.
+Qed.
+
+(* ---------- every optimizer keeps "each rule has a condition" ---------- *)
+Lemma hc_map : forall (g : rule -> rule), (forall r, r_funcs r <> [] -> r_funcs (g r) <> []) ->
+    forall rules, rules_have_conditions rules -> rules_have_conditions (map g rules).
+Proof.
+  intros g Hg rules H r' Hin. apply in_map_iff in Hin as (r & <- & Hr). apply Hg, H, Hr.
+Qed.
+
+Lemma map_not_nil : forall {A B} (g : A -> B) l, l <> [] -> map g l <> [].
+Proof. intros A B g [|x t] H; [congruence|discriminate]. Qed.
+
+Lemma hc_alias : forall rules, rules_have_conditions rules -> rules_have_conditions (alias_opt rules).
+Proof. apply hc_map. intros r H. cbn. now apply map_not_nil. Qed.
+
+Lemma hc_sort_funcs : forall rules, rules_have_conditions rules -> rules_have_conditions (map sort_funcs rules).
+Proof.
+  apply hc_map. intros r H. cbn. intros N. apply H.
+  apply length_zero_iff_nil. rewrite <- (stable_sort_length less_fname), N. reflexivity.
+Qed.
+
+Lemma hc_sort_params : forall rules, rules_have_conditions rules -> rules_have_conditions (map sort_params rules).
+Proof. apply hc_map. intros r H. cbn. now apply map_not_nil. Qed.
+
+Lemma hc_dedup : forall rules, rules_have_conditions rules -> rules_have_conditions (dedup_opt rules).
+Proof. apply hc_map. intros r H. cbn. now apply map_not_nil. Qed.
+
+Lemma hc_merge_loop : forall rs m, rules_have_conditions (m :: rs) -> rules_have_conditions (merge_loop m rs).
+Proof.
+  induction rs as [|r t IH]; intros m H; [exact H|].
+  cbn [merge_loop]. destruct (mergeable m r) eqn:HM.
+  - apply IH. intros x [<-|Hx].
+    + destruct (mergeable_shape _ _ HM) as (fm & fr & Em & Er & _). unfold merge_into. rewrite Em, Er. discriminate.
+    + apply H. cbn; auto.
+  - intros x [<-|Hx]; [apply H; cbn; auto|]. apply (IH r); [|exact Hx]. intros y Hy. apply H. cbn; auto.
+Qed.
+
+Lemma hc_merge_sort : forall rules, rules_have_conditions rules -> rules_have_conditions (merge_sort_opt rules).
+Proof.
+  intros rules H. unfold merge_sort_opt. apply hc_sort_params.
+  apply hc_sort_funcs in H. destruct (map sort_funcs rules) as [|m t]; [exact H|]. now apply hc_merge_loop.
+Qed.
+
+Lemma dat_funcs_not_nil : forall db fs fs', dat_funcs db fs = XOk fs' -> fs <> [] -> fs' <> [].
+Proof.
+  intros db [|f t] fs' H N; [congruence|]. cbn in H.
+  destruct (dat_params db (f_name f) (f_params f) []); try discriminate.
+  destruct (dat_funcs db t); try discriminate. inversion H. discriminate.
+Qed.
+
+Lemma hc_dat : forall db rules out, dat_opt db rules = XOk out ->
+    rules_have_conditions rules -> rules_have_conditions out.
+Proof.
+  intros db rules out H HC. apply dat_combine_ok in H.
+  induction H as [|r r' t t' Hr _ IH]; [intros x []|].
+  intros x [<-|Hx].
+  - unfold dat_rule in Hr. destruct (dat_funcs db (r_funcs r)) as [fs| |] eqn:E; try discriminate.
+    inversion Hr; subst. cbn. apply (dat_funcs_not_nil _ _ _ E). apply HC. cbn; auto.
+  - apply IH; [|exact Hx]. intros y Hy. apply HC. cbn; auto.
+Qed.
 
 (* ---------- the statements of C04_Props.v ---------- *)
 Lemma C04_alias_sound_proof :
@@ -768,70 +898,90 @@ Proof.
 Qed.
 
 (* ---------- statements about the compiled program ---------- *)
-Lemma C04_lower_sound_partial_proof :
+Lemma C04_build_error_iff_empty_condition_proof :
+  forall rules : list rule, lower rules = None <-> some_condition_empty rules.
+Proof. exact lower_none_iff. Qed.
+
+Lemma C04_lower_sound_proof :
   forall (packet D : Type) (atom_sem : string -> string -> string -> packet -> bool) (out_sem : func -> option D)
          (rules : list rule),
-    nonempty_conditions rules ->
+    rules_have_conditions rules ->
     forall pk : packet,
-      compiled_decision packet D atom_sem out_sem rules pk = Some (decide packet D atom_sem out_sem rules pk).
-Proof. intros. unfold compiled_decision, decide. now apply lower_sound. Qed.
-
-Lemma C04_lower_sound_refuted_proof :
-  exists (rules : list rule) (pk : string),
-    compiled_decision string string w_atom w_out rules pk <> Some (decide string string w_atom w_out rules pk).
-Proof. exists w_empty_rules, "80". destruct lower_refuted_witness as [-> ->]. discriminate. Qed.
-
-Lemma w_geo_rules_nonempty : nonempty_conditions w_geo_rules.
+      (some_condition_empty rules -> compiled_decision packet D atom_sem out_sem rules pk = CBuildError) /\
+      (~ some_condition_empty rules ->
+       compiled_decision packet D atom_sem out_sem rules pk = CDecision (decide packet D atom_sem out_sem rules pk)).
 Proof.
-  intros r [<-|[]]. split; [discriminate|]. intros f [<-|[<-|[]]]; discriminate.
+  intros packet D atom_sem out_sem rules HC pk. split.
+  - intros H. now apply compiled_error.
+  - intros H. destruct (lower rules) as [ms|] eqn:E.
+    + now apply (compiled_sound packet D atom_sem out_sem rules ms).
+    + exfalso. apply H. now apply lower_none_iff.
 Qed.
 
-Lemma C04_dat_empties_condition_proof :
-  exists (db : geodb) (rules out : list rule) (pk : string),
-    nonempty_conditions rules /\ traffic_pipeline db rules = XOk out /\ ~ nonempty_conditions out /\
-    compiled_decision string string w_atom_port w_out out pk <> Some (decide string string w_atom_port w_out rules pk).
+Lemma C04_empty_expansion_is_build_error_proof :
+  exists (db : geodb) (rules out : list rule),
+    rules_have_conditions rules /\ ~ some_condition_empty rules /\
+    traffic_pipeline db rules = XOk out /\ some_condition_empty out /\
+    forall pk : string, compiled_decision string string w_atom w_out out pk = CBuildError.
 Proof.
-  destruct compiled_refuted_witness as (out & Hp & Hc & Hd).
-  exists db_empty, w_geo_rules, out, "80".
-  split; [exact w_geo_rules_nonempty|]. split; [exact Hp|]. split.
-  - intros HN. vm_compute in Hp. inversion Hp; subst. clear Hp Hc Hd.
-    destruct (HN _ (or_introl eq_refl)) as [_ H]. apply (H _ (or_introl eq_refl)). reflexivity.
-  - rewrite Hc, Hd. discriminate.
+  destruct empty_expansion_witness as (out & Hp & He & Hc).
+  exists db_empty, w_geo_rules, out. split.
+  - intros r [<-|[]]. discriminate.
+  - split; [|auto].
+    intros (r & f & [<-|[]] & [<-|[<-|[]]] & N); discriminate.
 Qed.
 
-Lemma C04_compiled_program_partial_proof :
+Lemma C04_compiled_program_proof :
   forall (packet D : Type) (atom_sem : string -> string -> string -> packet -> bool) (out_sem : func -> option D)
          (db : geodb) (rules mid : list rule),
     alias_respecting packet atom_sem ->
     geo_respecting packet atom_sem (dat_expansion db) ->
+    rules_have_conditions rules ->
     dat_opt db (alias_opt rules) = XOk mid ->
     merge_hazard_free D out_sem mid ->
     dedup_faithful packet atom_sem (merge_sort_opt mid) ->
-    nonempty_conditions (dedup_opt (merge_sort_opt mid)) ->
     exists out, traffic_pipeline db rules = XOk out /\
-                forall pk : packet, compiled_decision packet D atom_sem out_sem out pk = Some (decide packet D atom_sem out_sem rules pk).
+                forall pk : packet,
+                  (some_condition_empty out -> compiled_decision packet D atom_sem out_sem out pk = CBuildError) /\
+                  (~ some_condition_empty out ->
+                   compiled_decision packet D atom_sem out_sem out pk = CDecision (decide packet D atom_sem out_sem rules pk)).
 Proof.
-  intros packet D atom_sem out_sem db rules mid HA HG Hd HM HF HN.
+  intros packet D atom_sem out_sem db rules mid HA HG HC Hd HM HF.
   destruct (traffic_pipeline_sound_partial packet D atom_sem out_sem db rules mid HA HG Hd HM HF) as (out & Hp & Hdec).
   exists out. split; [exact Hp|]. intros pk. rewrite <- Hdec.
+  apply C04_lower_sound_proof.
   rewrite traffic_pipeline_eq, Hd in Hp. cbn in Hp. inversion Hp; subst.
-  now apply C04_lower_sound_partial_proof.
+  apply hc_dedup, hc_merge_sort, (hc_dat db _ _ Hd), hc_alias, HC.
 Qed.
 
-Lemma C04_compiled_dns_program_partial_proof :
+Lemma C04_compiled_dns_program_proof :
   forall (packet D : Type) (atom_sem : string -> string -> string -> packet -> bool) (out_sem : func -> option D)
          (db : geodb) (rules mid : list rule),
     geo_respecting packet atom_sem (dat_expansion db) ->
+    rules_have_conditions rules ->
     dat_opt db rules = XOk mid ->
     merge_hazard_free D out_sem mid ->
     dedup_faithful packet atom_sem (merge_sort_opt mid) ->
-    nonempty_conditions (dedup_opt (merge_sort_opt mid)) ->
     exists out, (dns_pipeline db rules = XOk out /\ dns_response_pipeline db rules = XOk out /\ daedns_pipeline db rules = XOk out) /\
-                forall pk : packet, compiled_decision packet D atom_sem out_sem out pk = Some (decide packet D atom_sem out_sem rules pk).
+                forall pk : packet,
+                  (some_condition_empty out -> compiled_decision packet D atom_sem out_sem out pk = CBuildError) /\
+                  (~ some_condition_empty out ->
+                   compiled_decision packet D atom_sem out_sem out pk = CDecision (decide packet D atom_sem out_sem rules pk)).
 Proof.
-  intros packet D atom_sem out_sem db rules mid HG Hd HM HF HN.
+  intros packet D atom_sem out_sem db rules mid HG HC Hd HM HF.
   destruct (dns_pipeline_sound_partial packet D atom_sem out_sem db rules mid HG Hd HM HF) as (out & Hp & Hdec).
   exists out. split; [exact Hp|]. intros pk. rewrite <- Hdec.
+  apply C04_lower_sound_proof.
   destruct Hp as (Hp & _). destruct (dns_pipeline_eq db rules) as (E & _). rewrite E, Hd in Hp. cbn in Hp. inversion Hp; subst.
-  now apply C04_lower_sound_partial_proof.
+  apply hc_dedup, hc_merge_sort, (hc_dat db _ _ Hd), HC.
+Qed.
+
+Lemma compiled_nonvacuous :
+  compiled_decision string string w_atom w_out (dedup_opt (merge_sort_opt nonvacuous_rules)) "a.com"
+  = CDecision (Some "proxy", false)
+  /\ rules_have_conditions nonvacuous_rules /\ ~ some_condition_empty (dedup_opt (merge_sort_opt nonvacuous_rules)).
+Proof.
+  split; [vm_compute; reflexivity|]. split.
+  - intros r Hr. vm_compute in Hr. repeat (destruct Hr as [<-|Hr]; [discriminate|]). destruct Hr.
+  - intros H. apply lower_none_iff in H. vm_compute in H. discriminate.
 Qed.
